@@ -29,6 +29,11 @@ func (o Op12) String() string {
 		return fmt.Sprintf("handle%d.%s", o.Handle, o.SP.String())
 	case "setsearch":
 		return "SetSearch(" + quote(string(o.Value)) + ")"
+	case "setsearch-current":
+		if o.Setter == 1 {
+			return "SetSearch(u.Query())"
+		}
+		return "SetSearch(u.Search())"
 	case "setter":
 		return spec.SetterNames[o.Setter] + "=" + quote(string(o.Value))
 	}
@@ -195,8 +200,15 @@ func Check12(c Case12, r *core.Rec) {
 					return
 				}
 			}
-		case "setsearch":
+		case "setsearch", "setsearch-current":
 			v := string(o.Value)
+			if o.Kind == "setsearch-current" {
+				// the setter is called with exactly what the getter returns right now
+				v = u.Search()
+				if o.Setter == 1 {
+					v = u.Query()
+				}
+			}
 			u.SetSearch(v)
 			sawSetSearch = true
 			r.Class("op:setsearch")
@@ -276,6 +288,9 @@ func Gen12(t *rapid.T) Case12 {
 		return Op12{Kind: "sp", Handle: rapid.IntRange(0, 3).Draw(t, "handle"), SP: o}
 	}
 	genSetSearch := func() Op12 {
+		if rapid.IntRange(0, 4).Draw(t, "current") == 0 {
+			return Op12{Kind: "setsearch-current", Setter: rapid.IntRange(0, 1).Draw(t, "viaQuery")}
+		}
 		v := gen.Pick(t, "search", c12Search)
 		if rapid.IntRange(0, 5).Draw(t, "searchSoup") == 0 {
 			v = genQuery(t)
